@@ -4,6 +4,6 @@ N="$1"; ID="$2"; shift 2
 cd "$(dirname "$0")/.."
 OUT=$(selftest/sensitivity.sh "$ID" "seeded/$N/patch.diff" "$@" 2>&1)
 RC=$(echo "$OUT" | grep -o "exited [0-9]*" | tail -1 | cut -d' ' -f2)
-SIGS=$(echo "$OUT" | grep "class=" | sed 's/^ *//' | head -5 | tr '\n' ';')
+SIGS=$(echo "$OUT" | grep "^   class=" | sed 's/^ *//' | head -5 | tr '\n' ';')
 echo "$(date -u +%FT%TZ) check=$ID args='$*' exit=$RC $SIGS" >> "seeded/$N/results.txt"
 echo "SEEDED $N check=$ID exit=$RC $SIGS"
